@@ -313,9 +313,14 @@ def variant_name(facts, adt_path, idx):
 
 # ---------------------------------------------------------------- symbolic normalisation (E3)
 def rewrite(t, fn):
-    """Bottom-up rewrite of a term: fn(term) -> replacement or None."""
+    """Rewrite of a term: fn(term) -> replacement or None. A term that fn recognises as a whole is replaced as a whole (its
+    parts are not rewritten first: an atom such as "the candidate" may contain another atom such as "the cursor"); otherwise
+    the parts are rewritten bottom-up and fn is tried on the result."""
     if not isinstance(t, tuple):
         return t
+    r0 = fn(t)
+    if r0 is not None:
+        return r0
     new = []
     for x in t:
         if isinstance(x, tuple):
